@@ -19,7 +19,7 @@ CHECKS = {
   note="Trusted: ref/solve's cut semantics (self-checked against ISO 7.8.4 examples). Cut placements inside nested ;/,/-> are excluded as the property states.",
   design="DESIGN.md §3 C03"),
  "C04": dict(
-  technique="bounded-exhaustive enumeration of catch/throw skeletons (all clause bodies up to a length bound over 37 item shapes x 9 contexts, plus the body as query, directive and initialization goal) on the real interpreter; answers, recovery trace and final error compared with an ISO reference machine",
+  technique="bounded-exhaustive enumeration of catch/throw skeletons (all clause bodies up to a length bound over 41 item shapes x 9 contexts, plus the body as query, directive and initialization goal) on the real interpreter; answers, recovery trace and final error compared with an ISO reference machine",
   text="Every skeleton combines generators, cuts, user balls sharing variables (incl. list balls), built-in errors and catch/3 goals that exit deterministically, with choice points, or are re-entered by backtracking; each is run uncaught, caught outside, inside findall, and with a throw after the catch has exited; the reference keeps catch frames as choice points with a trailed active flag. Exhaustive within the bounds.",
   note="Trusted: ref/solve's catch/throw semantics (self-checked against ISO 7.8.9 examples); only the formal part of error(Formal, Context) is compared.",
   design="DESIGN.md §3 C04"),
